@@ -34,6 +34,8 @@ TRUSTED = [
     'C17: numpy dense linear algebra of the oracles (kron, matrix products, vdot)',
 ]
 ASSUMPTIONS = [
+    'band entries of the integrals are dyadic values 6e-5 .. 1.2e-7 (more than a decade above EQ_TOLERANCE = 1e-8); float32 inputs of '
+    'the robust stream: tolerance 1e-5',
     'integrals are real dyadic rationals (float arithmetic exact); states have rational amplitudes; float comparisons at 1e-9 '
     '(scaled by the total weight for truncation values); thresholds are placed away from the error values by a margin',
 ]
@@ -127,19 +129,24 @@ def err(x):
 # ----------------------------------------------------------------------------- generators
 
 
-def dy(rng, zero_p=0.2):
+BAND = [2.0 ** -14, 2.0 ** -17, 2.0 ** -20, 2.0 ** -23]   # 6e-5 .. 1.2e-7: above EQ_TOLERANCE by more than a decade
+
+
+def dy(rng, zero_p=0.2, band_p=0.0):
     if rng.random() < zero_p:
         return 0.0
+    if band_p and rng.random() < band_p:
+        return rng.choice(BAND) * rng.choice([1, -1, 3])
     return rng.choice([-2, -1.5, -1, -0.75, -0.5, -0.25, 0.25, 0.5, 0.75, 1, 1.5, 2])
 
 
-def sym8(rng, n, zero_p=0.2):
+def sym8(rng, n, zero_p=0.2, band_p=0.0):
     """random real dyadic two_body_integrals[p,q,r,s] = (ps|qr) with the eight-fold symmetry of (ab|cd)"""
     chem = np.zeros((n, n, n, n))
     done = np.zeros((n, n, n, n), dtype=bool)
     for a, b, c, d in itertools.product(range(n), repeat=4):
         if not done[a, b, c, d]:
-            v = dy(rng, zero_p)
+            v = dy(rng, zero_p, band_p)
             for x in [(a, b, c, d), (b, a, c, d), (a, b, d, c), (b, a, d, c), (c, d, a, b), (d, c, a, b), (c, d, b, a),
                       (d, c, b, a)]:
                 chem[x] = v
@@ -150,11 +157,11 @@ def sym8(rng, n, zero_p=0.2):
     return h
 
 
-def sym2(rng, n):
+def sym2(rng, n, band_p=0.0):
     m = np.zeros((n, n))
     for i in range(n):
         for j in range(i, n):
-            m[i, j] = m[j, i] = dy(rng)
+            m[i, j] = m[j, i] = dy(rng, 0.2, band_p)
     return m
 
 
@@ -459,8 +466,11 @@ def stream_integrals(ctx):
     tol = rj(1e-8)
     for t in range(N):
         n = rng.choice([1, 2, 2, 3, 3])
-        one = sym2(rng, n)
-        two = sym8(rng, n)
+        # (B) band entries 1e-7 .. 1e-4 next to O(1) ones: bare and core-dressed one-body integrals, two-body integrals
+        band = rng.choice([0.0, 0.0, 0.3, 0.6])
+        one = sym2(rng, n, band)
+        two = sym8(rng, n, 0.2, band / 2)
+        s.count('band-entries:%s' % bool(band))
         if rng.random() < 0.15:
             one[0, 0] = 2.0 ** -30      # below EQ_TOLERANCE: truncated
         nuc = rng.choice([0.0, 0.25, -1.5])
@@ -763,6 +773,238 @@ def stream_rdm(ctx):
     return s
 
 
+# ----------------------------------------------------------------------------- (S) / (T) / (A) robustness
+
+ARRAY_KINDS = ['int64', 'int32', 'float32', 'float64', 'fortran', 'noncontiguous']
+SINGLE_TOL = 1e-5
+
+
+def typed_real(A, kind):
+    """the same exactly representable real values as another array type (None if they do not fit)"""
+    A = np.asarray(A, dtype=float)
+    if kind in ('int64', 'int32'):
+        if np.abs(A - np.round(A)).max() != 0:
+            return None
+        return A.astype(kind)
+    if kind in ('float32', 'float64'):
+        return A.astype(kind)
+    if kind == 'fortran':
+        return np.asfortranarray(A)
+    if kind == 'noncontiguous':
+        big = np.zeros(tuple(2 * d for d in A.shape))
+        sl = tuple(slice(None, None, 2) for _ in A.shape)
+        big[sl] = A
+        return big[sl]
+    raise AssertionError(kind)
+
+
+def same(a, b, tol=0.0):
+    a, b = np.asarray(a), np.asarray(b)
+    return a.shape == b.shape and (err(a.astype(complex) - b.astype(complex)) <= tol)
+
+
+def stream_robust(ctx):
+    s = Stream('robust', '(T) integrals / tensors as int64, int32, float32, float64, Fortran-ordered and non-contiguous arrays, index '
+               'lists as list / tuple / numpy array / range, particle numbers as Python and numpy scalars (types rejected on a probe '
+               'input are excluded for the run): results equal those of the float64 reference; (S) array arguments are not '
+               'modified, a second call after overwriting the first result returns the same values; (A) complex constants and '
+               'complex non-Hermitian tensors in InteractionRDM.expectation, non-symmetric one-body integrals; '
+               'distinct = distinct (function, values, types)')
+    of = ctx.of
+    from openfermion.circuits import low_rank
+    from openfermion.chem.molecular_data import spinorb_from_spatial
+    from openfermion.ops.representations import interaction_operator as io
+    from openfermion.utils import rdm_mapping_functions as Rm
+    rng = rng_for(ctx.seed, 'c17-robust')
+    N = budget(ctx.tier, 40, 300)
+    if ctx.drift:
+        N = max(N, 150)
+
+    def intvals(shape):
+        return np.array([rng.choice([-2, -1, 0, 1, 2, 3]) for _ in range(int(np.prod(shape)))], dtype=float).reshape(shape)
+
+    def sym8int(n):
+        t = np.round(4 * sym8(rng, n))
+        return t
+
+    # ---- probes
+    acc = {}
+    fns = {
+        'spinorb_from_spatial': lambda o, t: spinorb_from_spatial(o, t),
+        'get_tensors_from_integrals': lambda o, t: io.get_tensors_from_integrals(o, t),
+        'get_active_space_integrals': lambda o, t: io.get_active_space_integrals(o, t, [0], [1]),
+        'get_chemist_two_body_coefficients': lambda o, t: low_rank.get_chemist_two_body_coefficients(t, spin_basis=False),
+        'low_rank_two_body_decomposition': lambda o, t: low_rank.low_rank_two_body_decomposition(t, final_rank=1, spin_basis=False),
+    }
+    o0, t0 = np.array([[1.0, 0.0], [0.0, 2.0]]), np.zeros((2, 2, 2, 2))
+    t0[0, 0, 0, 0] = t0[1, 1, 1, 1] = 1.0
+    for name, f in fns.items():
+        acc[name] = []
+        for k in ARRAY_KINDS:
+            try:
+                f(typed_real(o0, k), typed_real(t0, k))
+                acc[name].append(k)
+            except Exception:
+                s.count('type-rejected:%s:%s' % (name, k))
+
+    def flat(res):
+        out = []
+        for x in (res if isinstance(res, tuple) else (res,)):
+            out.append(np.array(x, dtype=complex, copy=True))
+        return out
+
+    for t in range(N):
+        n = rng.choice([2, 2, 3])
+        one = intvals((n, n))
+        if rng.random() < 0.5:
+            one = (one + one.T)        # symmetric or (A) non-symmetric
+        two = sym8int(n)
+        occ_act = [([0], [1]), ([], [0, 1]), ([1], [0])] if n == 2 else [([0], [1, 2]), ([0, 1], [2]), ([2], [0]), ([], [2, 0, 1])]
+        occ, act = rng.choice(occ_act)
+        idx_kind = rng.choice(['list', 'tuple', 'ndarray', 'range'])
+
+        def conv(l):
+            if idx_kind == 'tuple':
+                return tuple(l)
+            if idx_kind == 'ndarray':
+                return np.array(l, dtype=int)
+            if idx_kind == 'range' and l == list(range(len(l))) and l:
+                return range(len(l))
+            return list(l)
+        calls = {
+            'spinorb_from_spatial': lambda o, tt: spinorb_from_spatial(o, tt),
+            'get_tensors_from_integrals': lambda o, tt: io.get_tensors_from_integrals(o, tt),
+            'get_active_space_integrals': lambda o, tt: io.get_active_space_integrals(o, tt, conv(occ), conv(act)),
+            'get_chemist_two_body_coefficients': lambda o, tt: low_rank.get_chemist_two_body_coefficients(tt, spin_basis=False),
+            'low_rank_two_body_decomposition': lambda o, tt: low_rank.low_rank_two_body_decomposition(tt, final_rank=n * n, spin_basis=False)[2:],
+        }
+        name = rng.choice(list(calls))
+        if not acc[name]:
+            continue
+        k = rng.choice(acc[name])
+        ot, tt = typed_real(one, k), typed_real(two, k)
+        if ot is None or tt is None:
+            continue
+        c = {'fn': name, 'type': k, 'index_type': idx_kind, 'n_spatial': n, 'one_body_integrals': one.tolist(),
+             'two_body_integrals': two.tolist(), 'occupied_indices': occ, 'active_indices': act}
+        s.case(c)
+        s.count('fn:' + name)
+        s.count('type:' + k)
+        o0_, t0_ = ot.copy(), tt.copy()
+        try:
+            ref = flat(calls[name](one.copy(), two.copy()))
+            res1 = calls[name](ot, tt)
+            got = flat(res1)
+        except Exception as e:
+            s.violate('%s(%s arrays, %s indices) raised %s: %s' % (name, k, idx_kind, type(e).__name__, e), c, {})
+            continue
+        tol = SINGLE_TOL if k == 'float32' else TOL
+        s.float_comparisons += len(ref)
+        if len(ref) != len(got) or not all(same(a, b, tol) for a, b in zip(ref, got)):
+            s.violate('%s: result for %s arrays differs from the float64 reference' % (name, k), c, {})
+        if not (np.array_equal(ot, o0_) and np.array_equal(tt, t0_) and ot.dtype == o0_.dtype and tt.dtype == t0_.dtype):
+            s.violate('%s modified its array arguments' % name, c, {})
+        # (S) overwrite the first result, call again
+        try:
+            for x in (res1 if isinstance(res1, tuple) else (res1,)):
+                if isinstance(x, np.ndarray) and x.flags.writeable and not np.shares_memory(x, ot) and not np.shares_memory(x, tt):
+                    x[...] = 9
+            got2 = flat(calls[name](ot, tt))
+            if not all(same(a, b, 0.0) for a, b in zip(got, got2)) and np.array_equal(ot, o0_) and np.array_equal(tt, t0_):
+                s.violate('%s returns different values after its first result was overwritten in place' % name, c, {})
+        except Exception as e:
+            s.violate('%s: second call raised %s: %s' % (name, type(e).__name__, e), c, {})
+
+    # ---- RDM maps: argument integrity, numpy scalar particle numbers, complex64 tensors; (A) complex expectation values
+    for t in range(N):
+        n = rng.choice([2, 3])
+        Np = rng.randint(0, n)
+        psi = rand_state(rng, n, Np, rng.random() < 0.3)
+        d = direct_rdms(psi, n)
+        holes = n - Np
+        numk = rng.choice(['pyint', 'pyfloat', 'np.int64', 'np.float64', 'np.int32'])
+        num = {'pyint': int, 'pyfloat': float, 'np.int64': np.int64, 'np.float64': np.float64, 'np.int32': np.int32}[numk]
+        single = rng.random() < 0.3
+        cast = (lambda x: x.astype(np.complex64)) if single else (lambda x: x.copy())
+        tol = SINGLE_TOL if single else TOL
+        c = {'fn': 'rdm-maps', 'n': n, 'N': Np, 'number_type': numk, 'complex64': single,
+             'state': {format(i, '0%db' % n): [psi[i].real, psi[i].imag] for i in np.nonzero(psi)[0]}}
+        s.case(c)
+        tp, op_, tq, ph, oq = cast(d['tpdm']), cast(d['opdm']), cast(d['tqdm']), cast(d['phdm']), cast(d['oqdm'])
+        snap = [x.copy() for x in (tp, op_, tq, ph, oq)]
+        jobs = [('two_pdm_to_two_hole', lambda: Rm.map_two_pdm_to_two_hole_dm(tp, op_), 'tqdm', True),
+                ('two_hole_to_two_pdm', lambda: Rm.map_two_hole_dm_to_two_pdm(tq, op_), 'tpdm', True),
+                ('one_pdm_to_one_hole', lambda: Rm.map_one_pdm_to_one_hole_dm(op_), 'oqdm', True),
+                ('one_hole_to_one_pdm', lambda: Rm.map_one_hole_dm_to_one_pdm(oq), 'opdm', True),
+                ('two_pdm_to_ph', lambda: Rm.map_two_pdm_to_particle_hole_dm(tp, op_), 'phdm', True),
+                ('ph_to_two_pdm', lambda: Rm.map_particle_hole_dm_to_two_pdm(ph, op_), 'tpdm', True),
+                ('two_pdm_to_one_pdm', lambda: Rm.map_two_pdm_to_one_pdm(tp, num(Np)), 'opdm', Np - 1 != 0),
+                ('two_hole_to_one_hole', lambda: Rm.map_two_hole_dm_to_one_hole_dm(tq, num(holes)), 'oqdm', holes - 1 != 0),
+                ('ph_to_one_pdm', lambda: Rm.map_particle_hole_dm_to_one_pdm(ph, num(Np), num(n)), 'opdm', True)]
+        for name, call, target, ok in jobs:
+            if not ok:
+                continue
+            try:
+                with np.errstate(all='ignore'):
+                    out = np.asarray(call())
+                s.float_comparisons += 1
+                if err(out - d[target]) > tol:
+                    s.violate('map_%s (%s particle number, complex64=%s) differs from the directly computed %s'
+                              % (name, numk, single, target), dict(c, map=name), {})
+                out2 = None
+                if out.flags.writeable and not any(np.shares_memory(out, x) for x in (tp, op_, tq, ph, oq)):
+                    out[...] = 3
+                    with np.errstate(all='ignore'):
+                        out2 = np.asarray(call())
+                    if err(out2 - d[target]) > tol:
+                        s.violate('map_%s returns different values after its first result was overwritten' % name, dict(c, map=name), {})
+            except Exception as e:
+                s.violate('map_%s raised %s: %s' % (name, type(e).__name__, e), dict(c, map=name), {})
+        if not all(np.array_equal(a, b) for a, b in zip((tp, op_, tq, ph, oq), snap)):
+            s.violate('an RDM mapping function modified its arguments', c, {})
+        # (A) complex constant, complex non-Hermitian tensors
+        const = complex(rng.choice([0.5, -1.0, 0.0]), rng.choice([0.0, 1.0, -0.25]))
+        o1 = np.array([[complex(dy(rng), dy(rng, 0.5)) for _ in range(n)] for _ in range(n)])
+        o2 = np.array([[[[complex(dy(rng, 0.6), dy(rng, 0.8)) for _ in range(n)] for _ in range(n)] for _ in range(n)] for _ in range(n)])
+        cc = dict(c, fn='expectation-complex', constant=[const.real, const.imag])
+        try:
+            op = of.InteractionOperator(const, o1.copy(), o2.copy())
+            irdm = of.InteractionRDM(d['opdm'].copy(), d['tpdm'].copy())
+            o1s, o2s, r1s, r2s = o1.copy(), o2.copy(), irdm.one_body_tensor.copy(), irdm.two_body_tensor.copy()
+            e1 = complex(irdm.expectation(op))
+            Hd = const * np.eye(2 ** n, dtype=complex) + dense_one_c(o1) + dense_two_c(o2)
+            ref = np.vdot(psi, Hd @ psi)
+            s.float_comparisons += 1
+            if abs(e1 - ref) > TOL * max(1.0, abs(ref)):
+                s.violate('InteractionRDM.expectation with complex constant / non-Hermitian tensors = %r, <psi|H|psi> = %r'
+                          % (e1, complex(ref)), cc, {})
+            if not (np.array_equal(op.one_body_tensor, o1s) and np.array_equal(op.two_body_tensor, o2s)
+                    and np.array_equal(irdm.one_body_tensor, r1s) and np.array_equal(irdm.two_body_tensor, r2s)
+                    and op.constant == const):
+                s.violate('InteractionRDM.expectation modified the operator or the RDM', cc, {})
+        except Exception as e:
+            s.violate('InteractionRDM.expectation (complex) raised %s: %s' % (type(e).__name__, e), cc, {})
+    return s
+
+
+def dense_one_c(h1):
+    return np.tensordot(np.asarray(h1, dtype=complex), e1(np.asarray(h1).shape[0]), axes=([0, 1], [0, 1]))
+
+
+def dense_two_c(h2):
+    h2 = np.asarray(h2, dtype=complex)
+    n = h2.shape[0]
+    a, ad = ladder(n)
+    E = e1(n)
+    H = np.zeros((2 ** n, 2 ** n), dtype=complex)
+    for p in range(n):
+        for q in range(n):
+            blk = h2[p, :, :, q]
+            if blk.any():
+                H += ad[p] @ np.tensordot(blk, E, axes=([0, 1], [0, 1])) @ a[q]
+    return H
+
+
 # ----------------------------------------------------------------------------- entry points
 
 
@@ -774,6 +1016,47 @@ def replay(ctx, payload):
     inp = v['input']
     of = ctx.of
     try:
+        if 'type' in inp and 'index_type' in inp:
+            # (T)/(S) record of the robust stream
+            from openfermion.circuits import low_rank
+            from openfermion.chem.molecular_data import spinorb_from_spatial
+            from openfermion.ops.representations import interaction_operator as io
+            n = inp['n_spatial']
+            one, two = np.array(inp['one_body_integrals'], dtype=float), np.array(inp['two_body_integrals'], dtype=float)
+            occ, act, ik = inp['occupied_indices'], inp['active_indices'], inp['index_type']
+
+            def conv(l):
+                if ik == 'tuple':
+                    return tuple(l)
+                if ik == 'ndarray':
+                    return np.array(l, dtype=int)
+                if ik == 'range' and l == list(range(len(l))) and l:
+                    return range(len(l))
+                return list(l)
+            calls = {
+                'spinorb_from_spatial': lambda o, tt: spinorb_from_spatial(o, tt),
+                'get_tensors_from_integrals': lambda o, tt: io.get_tensors_from_integrals(o, tt),
+                'get_active_space_integrals': lambda o, tt: io.get_active_space_integrals(o, tt, conv(occ), conv(act)),
+                'get_chemist_two_body_coefficients': lambda o, tt: low_rank.get_chemist_two_body_coefficients(tt, spin_basis=False),
+                'low_rank_two_body_decomposition': lambda o, tt: low_rank.low_rank_two_body_decomposition(tt, final_rank=n * n, spin_basis=False)[2:],
+            }
+            f = calls[inp['fn']]
+
+            def flat(res):
+                return [np.array(x, dtype=complex, copy=True) for x in (res if isinstance(res, tuple) else (res,))]
+            ot, tt = typed_real(one, inp['type']), typed_real(two, inp['type'])
+            o0_, t0_ = ot.copy(), tt.copy()
+            ref = flat(f(one.copy(), two.copy()))
+            res1 = f(ot, tt)
+            got = flat(res1)
+            tol = SINGLE_TOL if inp['type'] == 'float32' else TOL
+            ok = len(ref) == len(got) and all(same(a, b, tol) for a, b in zip(ref, got))
+            ok = ok and np.array_equal(ot, o0_) and np.array_equal(tt, t0_) and ot.dtype == o0_.dtype
+            for x in (res1 if isinstance(res1, tuple) else (res1,)):
+                if isinstance(x, np.ndarray) and x.flags.writeable and not np.shares_memory(x, ot) and not np.shares_memory(x, tt):
+                    x[...] = 9
+            got2 = flat(f(ot, tt))
+            return bool(ok and all(same(a, b, 0.0) for a, b in zip(got, got2)))
         if 'state' in inp:
             from openfermion.utils import rdm_mapping_functions as Rm
             n, Np = inp['n'], inp['N']
@@ -876,4 +1159,4 @@ def replay(ctx, payload):
 
 
 def run(ctx):
-    return [stream_chemist(ctx), stream_lowrank(ctx), stream_integrals(ctx), stream_rdm(ctx)]
+    return [stream_chemist(ctx), stream_lowrank(ctx), stream_integrals(ctx), stream_rdm(ctx), stream_robust(ctx)]
